@@ -102,6 +102,10 @@ Section Inv.
     pose proof (st_ok_alloc s1 (HSlice e arr 0 (zlen cells) (zlen cells)) H1 I) as H2.
     destruct (alloc s1 _) as [s2 h]. exact H2.
   Qed.
+  Lemma st_ok_variadic_arg s vtype n vargs : st_ok s -> st_ok (fst (variadic_arg s vtype n vargs)).
+  Proof.
+    intros H. unfold variadic_arg. destruct (n =? 0); [exact H|]. apply st_ok_new_slice; exact H.
+  Qed.
   Lemma st_ok_emit s b : st_ok s -> st_ok (emit s b). Proof. intros [? ?]; split; auto. Qed.
   Lemma st_ok_push_bt s p : st_ok s -> st_ok (push_bt s p). Proof. intros [? ?]; split; auto. Qed.
   Lemma st_ok_pop_bt s : st_ok s -> st_ok (pop_bt s). Proof. intros [? ?]; split; auto. Qed.
